@@ -176,7 +176,7 @@ def r6_7(ctx, rc):
                         cn = ctx.H.node_of(F, call)[0]
                         a = ctx.H.subst(a, F, cn)
                         txt = ast.unparse(a)
-                        soft = '_OPERATION_VERSIONS' in txt
+                        soft = 'OPERATION_VERSIONS' in txt
                         read = 'operationVersions' in txt
                         readf = 'funcVersions' in txt
                         n += 1
